@@ -111,7 +111,7 @@ struct P_C12c
     static Case gen(Choice& ch)
     {
         GCase c; c.tmpl = ch.chance(1, 2) ? 0 : 1;
-        c.g = gg::gen_grammar(ch, gg::CONFLICT_FREE, c.strategy, slots_of(c.tmpl));
+        c.g = gg::gen_grammar(ch, ch.chance(1, 3) ? gg::RECOVERY : gg::CONFLICT_FREE, c.strategy, slots_of(c.tmpl));     // recovery pushes the error symbol without consuming input
         eng::Rng rng = ch.fork(); ref::Analysis an = ref::analyse(c.g);
         std::vector<gg::Input> all; gg::gen_inputs(c.g, an, rng, 60 + ch.below(4) * 40, 8, all);
         for (auto& in : all) if (in.text.size() + 1 <= MAXN) c.inputs.push_back(in);
@@ -127,7 +127,6 @@ struct P_C12c
         using R = Runner<TT>; using PS = typename TT::parser_type;
         const Grammar& g = c.g;
         if (g.rules.empty()) return Verdict::discard("empty-grammar");
-        if (g.uses_error()) return Verdict::discard("uses-error");
         Prepared pr;
         if (!R::prepare(g, pr)) return Verdict::discard(pr.why);
         if (!pr.table.conflict_free()) return Verdict::discard("not-LR1");
@@ -165,6 +164,7 @@ struct P_C12c
                 return Verdict::fail(threw ? (monitor ? "fixed-size parse stack overflowed (cstring_buffer)" : "parse with cstring_buffer threw") : "cstring_buffer run differs from the string_buffer run", d);
             }
             if (e.rr.max_depth * 2 >= N) ++interesting;
+            if (e.rr.recovered && st.counting) st.label("input-with-recovery");
         }
         if (any_known && st.counting) st.excluded_known["F11"]++;
         if (interesting && st.counting && st.nontriv(eng::hcomb(g.hash(), c.inputs.size())))
